@@ -162,3 +162,45 @@ Example C07_once_example :
   /\ orun [OAcquire 10 5; OStart 1 5; ODone 1 5; ORelease 10 5; OAcquire 11 5; OStart 1 5]%Z oinit = None
   /\ orun [OAcquire 10 5; OStart 1 5; OAcquire 11 5]%Z oinit = None.
 Proof. vm_compute. repeat split; discriminate. Qed.
+
+(* ---- the build lock (fix F71, Sched/BuildLock.v) ---- *)
+From Redo Require Import Sched.BuildLock.
+
+(* on every trace accepted by the protocol with the build lock's obligations
+   (the one the implementation's lck events are replayed through): while a
+   script runs, the process that started it holds the target's build lock *)
+Theorem C07_running_script_holds_build_lock : forall es s,
+  brun es empty = Some s -> forall f p, In (f, p) (running s) -> lookup (f + bmagic)%Z (holder s) = Some p.
+Proof. exact running_holds_build_lock. Qed.
+Check C07_running_script_holds_build_lock : forall es s,
+  brun es empty = Some s -> forall f p, In (f, p) (running s) -> lookup (f + bmagic)%Z (holder s) = Some p.
+Print Assumptions C07_running_script_holds_build_lock.
+
+Theorem C07_build_lock_refines_lock_protocol : forall es s s', brun es s = Some s' -> lrun es s = Some s'.
+Proof. exact brun_lrun. Qed.
+Check C07_build_lock_refines_lock_protocol : forall es s s', brun es s = Some s' -> lrun es s = Some s'.
+Print Assumptions C07_build_lock_refines_lock_protocol.
+
+(* for every interleaving of builders and dirtiness walks in which write
+   transactions exclude one another: a walk never reads the rows of a target in
+   mid-build after finding its build lock free in the same transaction *)
+Theorem C07_walk_never_reads_rows_in_mid_build : forall es s, trun es tinit = Some s -> bad s = false.
+Proof. exact walk_never_reads_mid_build. Qed.
+Check C07_walk_never_reads_rows_in_mid_build : forall es s, trun es tinit = Some s -> bad s = false.
+Print Assumptions C07_walk_never_reads_rows_in_mid_build.
+
+(* not vacuous: a builder and a walk interleaved both ways are accepted; the
+   orders the implementation must not produce are refused (lock after the
+   start commit = the state before F71 in which a walk could read mid-build
+   rows; a job started without the build lock; the build lock dropped before
+   the result is recorded) *)
+Example C07_build_lock_example :
+  (exists s, trun [TBegin 1; TLock 1 7; TStart 1 7; TBegin 2; TProbe 2 7; TRead 2 7; TEnd 2; TRecord 1 7; TUnlock 1 7;
+                   TBegin 2; TProbe 2 7; TRead 2 7; TEnd 2]%Z tinit = Some s /\ seen_free s = [])
+  /\ trun [TBegin 1; TStart 1 7]%Z tinit = None
+  /\ trun [TBegin 1; TLock 1 7; TStart 1 7; TUnlock 1 7]%Z tinit = None
+  /\ (exists s, brun [LAcquired 10 5; LAcquired 10 (5 + bmagic); LJobStart 10 5; LJobDone 10 5;
+                      LRelease 10 (5 + bmagic); LRelease 10 5]%Z empty = Some s /\ holder s = [])
+  /\ brun [LAcquired 10 5; LJobStart 10 5]%Z empty = None
+  /\ brun [LAcquired 10 5; LAcquired 10 (5 + bmagic); LJobStart 10 5; LRelease 10 (5 + bmagic)]%Z empty = None.
+Proof. vm_compute. repeat split; try reflexivity; eexists; split; reflexivity. Qed.
